@@ -82,7 +82,31 @@ type Call struct {
 	Z    *ZOpt    `json:"z,omitempty"`
 	NilK bool     `json:"nilk,omitempty"` // pass a nil key slice
 	Big  int      `json:"big,omitempty"`  // value is Big bytes of 'x' (oversized entries)
+	Esc  bool     `json:"esc,omitempty"`  // K, K2, V and Vs are Go-escaped ("a\\xff"): bytes that JSON cannot carry
 	Fill string   `json:"fill,omitempty"` // with Big: "zero" = bytes 0x00, "ff" = bytes 0xff instead of 'x'
+}
+
+// Dec returns the call with its escaped fields decoded (see Esc).
+func (c Call) Dec() Call {
+	if !c.Esc {
+		return c
+	}
+	u := func(s string) string {
+		if r, err := strconv.Unquote(`"` + s + `"`); err == nil {
+			return r
+		}
+		return s
+	}
+	c.K, c.K2, c.V = u(c.K), u(c.K2), u(c.V)
+	if len(c.Vs) > 0 {
+		vs := make([]string, len(c.Vs))
+		for i, v := range c.Vs {
+			vs[i] = u(v)
+		}
+		c.Vs = vs
+	}
+	c.Esc = false
+	return c
 }
 
 // BigVal is the value of a call with Big > 0.
